@@ -48,6 +48,8 @@ Systems == { <<a>> : a \in Az } \cup { <<a, l>> : a \in Az, l \in Lon } \cup { <
 Backends == {"obj", "np", "akarr", "akrec", "sympy"}
 
 VARIABLE u
+AzNames(a) == IF a = "xy" THEN {"x", "y"} ELSE {"rho", "phi"}
+Stored(q) == AzNames(q[1]) \cup (IF Len(q) > 1 THEN {q[2]} ELSE {}) \cup (IF Len(q) > 2 THEN {q[3]} ELSE {})
 SysFrom(d) == { q \in Systems : Len(q) + 1 >= d }
 Uses == UNION { { [use |-> "get", syn |-> g[1], geo |-> g[2], sys |-> sy, backend |-> b] : sy \in SysFrom(g[3]), b \in Backends } : g \in Getters }
         \cup UNION { { [use |-> "set", syn |-> g[1], geo |-> g[2], sys |-> sy, backend |-> b] : sy \in SysFrom(g[3]), b \in {"obj", "np", "sympy"} } : g \in Setters }
@@ -56,6 +58,10 @@ Uses == UNION { { [use |-> "get", syn |-> g[1], geo |-> g[2], sys |-> sy, backen
         \* a keyword synonym is usable when the source lacks that group
         \cup { [use |-> "kw", syn |-> k[1], geo |-> k[2], sys |-> sy, backend |-> b]
                 : k \in Keywords, sy \in { q \in Systems : Len(q) < 3 }, b \in Backends \ {"sympy"} }
+        \* Awkward records whose *fields* carry the momentum name (built by ak.zip / with_name, which does not
+        \* rename): every operation must treat the field as the geometric coordinate it is a synonym of
+        \cup UNION { { [use |-> "field", syn |-> g[1], geo |-> g[2], sys |-> sy, backend |-> b]
+                        : sy \in { q \in Systems : g[2] \in Stored(q) }, b \in {"akarr", "akrec"} } : g \in Setters }
 Init == u \in Uses
 Next == UNCHANGED u
 Spec == Init /\ [][Next]_u
